@@ -219,6 +219,11 @@ func applyAcct(as state.AccountState, a acct, owners []module.Address) {
 				panic(fmt.Sprintf("canonical rebuild: %v", err))
 			}
 		}
+		if a.next.status == int(state.CSActive) {
+			if err := as.ActivateNextContract(); err != nil {
+				panic(fmt.Sprintf("canonical rebuild: %v", err))
+			}
+		}
 	}
 	ks := make([]string, 0, len(a.store))
 	for k := range a.store {
@@ -603,6 +608,15 @@ func (s *worldSim) opDeploy() {
 		}
 		return
 	}
+	if before.next.present && before.next.status == int(state.CSActive) {
+		// a next version that is being activated (between ActivateNextContract and the audit) cannot be replaced
+		if err == nil {
+			s.violate("world-account-mismatch", "account/deploy-over-active-next", "DeployContract replaced a next contract that is being activated")
+			return
+		}
+		s.checkMutable("after-refused-deploy")
+		return
+	}
 	if err != nil {
 		s.violate("world-unexpected-error", "account/deploy", "DeployContract: %v", err)
 		return
@@ -628,6 +642,31 @@ func (s *worldSim) pickWhere(label string, pred func(a acct) bool) int {
 		return c[s.t.Choose(label+".which", len(c))]
 	}
 	return s.pickAcct()
+}
+
+// opActivate: the deploy handler activates the pending next version before it runs its on-install /
+// on-update call; the audit (AcceptContract) follows later, possibly with snapshots in between.
+func (s *worldSim) opActivate() {
+	i := s.pickWhere("activate", func(a acct) bool { return a.next.present && a.next.status == int(state.CSPending) })
+	before := s.model[i]
+	h := s.handle(i)
+	err := h.ActivateNextContract()
+	s.rc.Event("acct %d activate next -> err=%v", i, err != nil)
+	mustFail := !before.next.present || before.next.status != int(state.CSPending)
+	if mustFail != (err != nil) {
+		s.violate("world-account-mismatch", "account/activate", "ActivateNextContract of %v: err=%v, reference expects failure=%v", before.next, err, mustFail)
+		return
+	}
+	if err != nil {
+		s.checkMutable("after-refused-activate")
+		return
+	}
+	s.model[i].next.status = int(state.CSActive)
+	if before.cur.present {
+		s.model[i].cur.status = int(state.CSInactive)
+	}
+	s.rc.Probe("contract_next_activated")
+	s.mutated(i, "activate", before)
 }
 
 func (s *worldSim) opAudit() {
@@ -955,7 +994,9 @@ func runWorld(rc *kit.RunCtx) {
 	rc.Config["profile"] = rc.Profile
 	for n := 0; n < nops && !s.failed; n++ {
 		rc.Steps++
-		switch s.t.Weighted("op", 14, 14, 8, 7, 5, 2, 6, 9, 7, 6, 5, 7, 5, 3, 4, 3, 9, 9, 6) {
+		switch s.t.Weighted("op", 14, 14, 8, 7, 5, 2, 6, 9, 7, 6, 5, 7, 5, 3, 4, 3, 9, 9, 6, 6) {
+		case 19:
+			s.opActivate()
 		case 16:
 			s.opDeploy()
 		case 17:
